@@ -323,7 +323,7 @@ pub fn run(ctx: &Ctx) -> Outcome {
             }
         }
         // every error kind at every fault point (persistent faults), on a few priors per shard
-        if i % 16 == 0 {
+        if i % 16 == 0 || !ctx.quick() {
             for fk in 0..FAULT_KINDS.len() {
                 for e in [Entry::ConfigurePort(Duration::from_millis(250)), Entry::SerialSignBus, Entry::Odk] {
                     for fault in [Fault::ReadSettings, Fault::Baud, Fault::WriteSettings, Fault::SetTimeout] {
